@@ -625,6 +625,19 @@ class Class(vppfs.VPPModelElement):
         #print(self.BLOB_STRING)
 
     # Helpers...
+    def IsEnumerationOfDiagram(self, fully_qualified_type):
+        """
+        Is the (fully qualified) type an enumeration of the class diagram?
+        Enumerations are generated as unscoped enums, which can not be forward declared:
+        a pointer or reference to one needs the defining header just like a value.
+        """
+        for _id, _class in self.parent_classDiagram.classes.items():
+            if _class.IS_ENUM:
+                qualified = _class.NAMESPACE + "::" + _class.NAME if _class.NAMESPACE else _class.NAME
+                if qualified == fully_qualified_type:
+                    return True
+        return False
+
     def GetNotForwardDeclarableNonPrimitiveTypesLinkedToThis(self):
         """
         Get all classes (fully qualified i.e. "NS1::NS2::CClass") for non-primitive types,
@@ -648,7 +661,7 @@ class Class(vppfs.VPPModelElement):
         # ATTRIBUTES
         for attr in self.ATTRIBUTES:
             if not IsTypePrimitive(attr.TYPE):
-                if not IsTypePointerOrRef(attr.TYPE_MODIFIER):
+                if not IsTypePointerOrRef(attr.TYPE_MODIFIER) or self.IsEnumerationOfDiagram(attr.TYPE):
                     filterValue.add(attr.TYPE)
         # OPERATION PARAMS and RETURN TYPE
         for oper in self.OPERATIONS:
@@ -657,11 +670,11 @@ class Class(vppfs.VPPModelElement):
                 modifier = params['modifier']
                 type = params['type']
                 if not IsTypePrimitive(type):
-                    if not IsTypePointerOrRef(modifier):
+                    if not IsTypePointerOrRef(modifier) or self.IsEnumerationOfDiagram(type):
                         filterValue.add(type)
             # return type
             if not IsTypePrimitive(oper.RETURN_TYPE):
-                if not IsTypePointerOrRef(oper.RETURN_TYPE_MODIFIER):
+                if not IsTypePointerOrRef(oper.RETURN_TYPE_MODIFIER) or self.IsEnumerationOfDiagram(oper.RETURN_TYPE):
                     filterValue.add(oper.RETURN_TYPE)
         # Associations
         for id, assoc in self.parent_classDiagram.associations.items():
@@ -692,7 +705,7 @@ class Class(vppfs.VPPModelElement):
         # ATTRIBUTES
         for attr in self.ATTRIBUTES:
             if not IsTypePrimitive(attr.TYPE):
-                if IsTypePointerOrRef(attr.TYPE_MODIFIER):
+                if IsTypePointerOrRef(attr.TYPE_MODIFIER) and not self.IsEnumerationOfDiagram(attr.TYPE):
                     filterPtrOrRef.add(attr.TYPE)
                 else:
                     filterValue.add(attr.TYPE)
@@ -703,13 +716,13 @@ class Class(vppfs.VPPModelElement):
                 modifier = params['modifier']
                 type = params['type']
                 if not IsTypePrimitive(type):
-                    if IsTypePointerOrRef(modifier):
+                    if IsTypePointerOrRef(modifier) and not self.IsEnumerationOfDiagram(type):
                         filterPtrOrRef.add(type)
                     else:
                         filterValue.add(type)
             # return type
             if not IsTypePrimitive(oper.RETURN_TYPE):
-                if IsTypePointerOrRef(oper.RETURN_TYPE_MODIFIER):
+                if IsTypePointerOrRef(oper.RETURN_TYPE_MODIFIER) and not self.IsEnumerationOfDiagram(oper.RETURN_TYPE):
                     filterPtrOrRef.add(oper.RETURN_TYPE)
                 else:
                     filterValue.add(oper.RETURN_TYPE)
